@@ -691,7 +691,7 @@ Lemma setparams_fields s who P' :
 Proof. cbv zeta. unfold step. cbn [exec]. destruct ((who =? GOV) && params_valid P'); repeat split; reflexivity. Qed.
 
 Lemma p03_setparams k nd s who P' po o code0 code : Vw k nd s code0 po -> Vw k nd (step s (SetParams who P')) code o ->
-  p03 k po (CSetParams who P') o = 0.
+  p03 k true po (CSetParams who P') o = 0.
 Proof.
   intros V V'. destruct (setparams_fields s who P') as (E1 & E2 & E3 & E4 & E5 & E6 & _).
   unfold p03, same_view.
@@ -706,7 +706,7 @@ Qed.
 Lemma p03_step k nd s c po o code0 : Inv s -> Strict s -> wf_op s (to_op k c) -> op_wf k c = true ->
   Tbl k (step s (to_op k c)) -> Vw k nd s code0 po ->
   Vw k nd (step s (to_op k c)) (if step_ok s (to_op k c) then 0 else 1) o ->
-  p03 k po c o = 0.
+  p03 k true po c o = 0.
 Proof.
   intros I S W OW T V V'.
   destruct (is_setparams c) eqn:Hsp.
@@ -893,7 +893,7 @@ Proof.
   - destruct (IH ws x Hin) as (p' & w' & H1 & H2 & H3). exists p', w'. split; [right; exact H1|]. split; [right; exact H2|exact H3].
 Qed.
 
-Lemma p04_state4 k nd s o ws : Inv s -> Tbl k s -> Vw4 k nd s o -> WsRel k s ws -> p04 k (st_params s) o ws = 0.
+Lemma p04_state4 k nd s o ws : Inv s -> Tbl k s -> Vw4 k nd s o -> WsRel k s ws -> p04 k true (st_params s) o ws = 0.
 Proof.
   intros I T V WR. pose proof (Inv_C04_of_Inv s I) as [Hesc Hasset].
   assert (Hd : denoms_of o = zseq nd) by (unfold denoms_of; rewrite (v4_bals _ _ _ _ V), mat_hd_length; reflexivity).
@@ -941,7 +941,7 @@ Proof.
   destruct (WR p w Hpw) as [_ Hsw]. rewrite Hsw. apply Z.leb_le. exact Hw.
 Qed.
 
-Lemma p04_state k nd s code o ws : Inv s -> Tbl k s -> Vw k nd s code o -> WsRel k s ws -> p04 k (st_params s) o ws = 0.
+Lemma p04_state k nd s code o ws : Inv s -> Tbl k s -> Vw k nd s code o -> WsRel k s ws -> p04 k true (st_params s) o ws = 0.
 Proof. intros I T V WR. exact (p04_state4 k nd s o ws I T (Vw_Vw4 _ _ _ _ _ V) WR). Qed.
 
 
@@ -1350,18 +1350,10 @@ Proof.
   rewrite Hw. clear. induction (k_ids k); simpl; lia.
 Qed.
 
-Lemma check_from_off k nd : forall steps s po ws i, trace_ok k nd s po steps ->
-  check_from k false s po ws steps i (mkV (-1) (-1) 0 (-1) 0) = mkV (-1) (-1) 0 (-1) 0.
-Proof.
-  induction steps as [|[c d] rest IH]; intros s po ws i TR; [reflexivity|].
-  destruct TR as (OW & V' & TR'). cbn [check_from]. rewrite OW, (Vw_corr _ _ _ _ _ V'). cbn.
-  exact (IH _ _ _ _ TR').
-Qed.
-
 Lemma check_from_pass k nd : forall steps s po ws i code0,
   Inv s -> Strict s -> Tbl k s -> Vw k nd s code0 po -> WsRel k s ws -> PInv k s ->
   wf_run s (map (fun cd : cop * dobs => to_op k (fst cd)) steps) -> trace_ok k nd s po steps ->
-  check_from k true s po ws steps i (mkV (-1) (-1) 0 (-1) 0) = mkV (-1) (-1) 0 (-1) 0.
+  check_from k true true s po ws steps i (mkV (-1) (-1) 0 (-1) 0) = mkV (-1) (-1) 0 (-1) 0.
 Proof.
   induction steps as [|[c d] rest IH]; intros s po ws i code0 I S T V WR PV WF TR; [reflexivity|].
   cbn [map fst wf_run] in WF. destruct WF as [W WF']. destruct TR as (OW & V' & TR').
@@ -1377,6 +1369,13 @@ Proof.
                   end) = false).
   { destruct c as [| | | |gw gP]; try reflexivity. cbn [to_op] in *. rewrite (vw_code _ _ _ _ _ V').
     unfold wf_op in W. destruct (step_ok s (SetParams gw gP)); [rewrite (W eq_refl); reflexivity|reflexivity]. }
+  assert (Hdc : (match c with
+                 | CSetParams _ P' => (o_code o =? 0) && negb (same_denoms_b s P')
+                 | _ => false
+                 end) = false).
+  { destruct c as [| | | |gw gP]; try reflexivity. cbn [to_op] in *. rewrite (vw_code _ _ _ _ _ V').
+    unfold wf_op in W. destruct (step_ok s (SetParams gw gP)); [|reflexivity].
+    pose proof (W eq_refl) as Hc. unfold compat_b in Hc. apply andb_true_iff in Hc. destruct Hc as [Hc _]. rewrite Hc. reflexivity. }
   assert (HW : WsRel k s' (match c with
                            | CAdv dts => wticks k (o_params po) ws dts
                            | CAdvN n dt => wticks k (o_params po) ws (repeat dt (Z.to_nat n))
@@ -1402,7 +1401,7 @@ Proof.
       + intros Hne. unfold PrevInv. rewrite E6, E8. exact (PV Hne). }
   destruct HW as [WR' PV'].
   pose proof (p04_state k nd s' _ o _ I' T' V' WR') as H04. rewrite <- (vw_params _ _ _ _ _ V') in H04.
-  rewrite OW, Hcorr, H03, Hinc, H04. cbn.
+  rewrite OW, Hcorr, H03, Hinc, Hdc. cbn [andb negb]. rewrite H04. cbn.
   exact (IH s' o _ (i + 1) _ I' S' T' V' WR' PV' WF' TR').
 Qed.
 
